@@ -23,9 +23,9 @@ StrXor(a, b) == [i \in 1..Len(a) |-> a[i] ^^ b[i]]
 ZeroBytes(n) == [i \in 1..n |-> 0]
 
 (* digest size b and input block size s of the Merkle-Damgard hashes used (FIPS 180-4) *)
-OutBytes(x)   == CASE x = "xmd-sha256" -> 32 [] x = "xmd-sha512" -> 64 [] x = "xmd-sha224" -> 28 [] x = "xmd-sha384" -> 48
-BlockBytes(x) == CASE x = "xmd-sha256" -> 64 [] x = "xmd-sha512" -> 128 [] x = "xmd-sha224" -> 64 [] x = "xmd-sha384" -> 128
-IsXmd(x) == x \in {"xmd-sha256", "xmd-sha512", "xmd-sha224", "xmd-sha384"}
+OutBytes(x)   == CASE x = "xmd-toy" -> 32 [] x = "xmd-sha256" -> 32 [] x = "xmd-sha512" -> 64 [] x = "xmd-sha224" -> 28 [] x = "xmd-sha384" -> 48
+BlockBytes(x) == CASE x = "xmd-toy" -> 64 [] x = "xmd-sha256" -> 64 [] x = "xmd-sha512" -> 128 [] x = "xmd-sha224" -> 64 [] x = "xmd-sha384" -> 128
+IsXmd(x) == x \in {"xmd-toy", "xmd-sha256", "xmd-sha512", "xmd-sha224", "xmd-sha384"}
 Ell(x, len) == (len + OutBytes(x) - 1) \div OutBytes(x)
 
 (* <<TRUE, bytes>> if every prescribed hash input is in the graph, else <<FALSE>> *)
